@@ -484,7 +484,7 @@ func runGossip(s *sim.Sim, o gopts) {
 		})
 	}
 	editorOp := func(ed *editor) {
-		kind := s.Choose(6, "editor-op")
+		kind := sim.Pick(s, "editor-op", 0, 1, 2, 3, 4, 5, 2, 0)
 		nd := w.nodes[ed.home]
 		if kind == 2 {
 			nd = w.nodes[ed.lockHome]
@@ -804,7 +804,7 @@ func runGossip(s *sim.Sim, o gopts) {
 		for _, ed := range editors {
 			ed := ed
 			if !ed.busy && w.nodes[ed.home].alive {
-				ew := 1
+				ew := 2
 				if o.prop == "C04" {
 					ew = 3
 				}
